@@ -4,7 +4,7 @@ CONSTANTS
   TokLeaves = {"a", "IDENT", ","}
   DocDepth = 2
   SubDepth = 0
-  Wide = TRUE
+  Wide = FALSE
   Slim = FALSE
   Alphabet = {"a", "c", ","}
   MaxInput = 3
